@@ -1,7 +1,7 @@
 (* C06 — the handler table of handler.go (Caller), sequential semantics.
 
    Mirrors: Caller.register / sregister / Add / AddBg / AddHandler / AddTmp (the
-   registration part and the self-removing wrapper), cuid, cuidToID, remove / Remove,
+   registration part and the self-removing wrapper with its once-only close of done), cuid, cuidToID, remove / Remove,
    Clear, ClearAll, Len, Count, the selection loop of Caller.exec and the four calls of
    Client.RunHandlers (bg "*", bg cmd, fg "*", fg cmd; the two cmd calls are skipped for
    an echo).  The interleaving machine built on these operations is in
@@ -140,27 +140,29 @@ Definition dispatch (t : table) (e : event) : list (str * hval * bool) :=
 
 (* ---- sequential run of one event, with AddTmp's wrapper ------------------ *)
 
-(* AddTmp's wrapper: when the user function returns true, Remove(cuid) and, if that
-   succeeded, close(done).  [ret h] says what the user function of handler h returns.
-   Folded over the invocations of one event in order. *)
+(* AddTmp's wrapper: when the user function returns true it calls finish, which is
+   Remove(cuid) followed by once.Do(close(done)) — done is closed the first time finish
+   runs, whoever removed the handler.  [ret h] says what the user function of handler h
+   returns.  Folded over the invocations of one event in order; the second component
+   lists the handlers whose finish ran (in order, with repetitions). *)
 Fixpoint settle (t : table) (inv : list (str * hval * bool)) (ret : N -> bool)
   : table * list N :=
   match inv with
   | [] => (t, [])
   | (cuid, v, _) :: r =>
     if hv_tmp v && ret (hv_id v) then
-      let (t1, ok) := remove t cuid in
-      let (t2, closed) := settle t1 r ret in
-      (t2, if ok then hv_id v :: closed else closed)
+      let (t1, _) := remove t cuid in
+      let (t2, fin) := settle t1 r ret in
+      (t2, hv_id v :: fin)
     else settle t r ret
   end.
 
 (* result of RunHandlers(e) once every handler it started has finished:
-   new table, handler ids invoked (with multiplicity), done channels closed *)
+   new table, handler ids invoked (with multiplicity), handlers whose finish ran *)
 Definition run_event (t : table) (e : event) (ret : N -> bool) : table * list N * list N :=
   let inv := dispatch t e in
-  let (t', closed) := settle t inv ret in
-  (t', List.map (fun x => hv_id (snd (fst x))) inv, closed).
+  let (t', fin) := settle t inv ret in
+  (t', List.map (fun x => hv_id (snd (fst x))) inv, fin).
 
 (* ---- registrations as data: what the machine and the table theorems quantify over --- *)
 
